@@ -146,8 +146,160 @@ def on_chain(p, r, exc, acc):
     acc.sample(dict(desc, output=got))
 
 
+# ------------------------------------------------------------------ where a named block may stand (compile-time rejections)
+WRAP = {
+    "anonymous-block": "<%block>{}</%block>",
+    "filtered-anonymous-block": '<%block filter="up">{}</%block>',
+    "named-block": '<%block name="outer{i}">{}</%block>',
+    "def": '<%def name="d{i}()">{}</%def>',
+    "call": '<%call expr="w()">{}</%call>',
+    "namespace-call": "<%self:w>{}</%self:w>",
+    "if": "\n% if True:\n{}\n% endif\n",
+    "for": "\n% for i in (1,):\n{}\n% endfor\n",
+}
+PRELUDE = '<%def name="w()">${caller.body()}</%def><%! up = lambda s: s.upper() %>'
+
+
+def placement_source(wrappers, duplicate):
+    text = '<%block name="b">TARGET</%block>'
+    for i, w in reversed(list(enumerate(wrappers))):
+        text = WRAP[w].replace("{i}", str(i)).replace("{}", text)
+    if duplicate == "sibling":
+        text += '<%block name="b">SECOND</%block>'
+    elif duplicate == "def-of-that-name":
+        text += '<%def name="b()">SECOND</%def>'
+    elif duplicate == "inside-another-block":
+        text += '<%block name="other"><%block name="b">SECOND</%block></%block>'
+    return PRELUDE + text
+
+
+def placement_expected(wrappers, duplicate):
+    inside = False
+    for w in wrappers:
+        if w == "named-block" and inside:
+            return "rejected"
+        if w in ("def", "call", "namespace-call"):
+            inside = True
+    if inside or duplicate != "none":
+        return "rejected"
+    return "accepted"
+
+
+def placement_case(TPm, EXCm, wrappers, duplicate):
+    try:
+        t = TPm.Template(placement_source(wrappers, duplicate))
+    except EXCm.CompileException as e:
+        return "rejected"
+    except Exception as e:
+        return "raised %s: %s" % (type(e).__name__, e)
+    try:
+        out = t.render()
+    except Exception as e:
+        return "accepted, but rendering raised %s: %s" % (type(e).__name__, e)
+    return "accepted" if out.upper().count("TARGET") == 1 else "accepted, block text appears %d times" % out.upper().count("TARGET")
+
+
+def h_placement(depth):
+    names = list(WRAP)
+
+    def h(p):
+        TPm, EXCm = common.mako("template", "exceptions")
+        n = p.choose(depth + 1, "nesting_depth")
+        wrappers = [names[p.choose(len(names), "wrapper%d" % i)] for i in range(n)]
+        dup = ["none", "sibling", "def-of-that-name", "inside-another-block"][p.choose(4, "duplicate")]
+        return dict(wrappers=wrappers, duplicate=dup, got=placement_case(TPm, EXCm, wrappers, dup))
+    return h
+
+
+def on_placement(p, r, exc, acc):
+    if exc is not None:
+        acc.candidate(kind="harness-exception", input=None, detail="%s: %s" % (type(exc).__name__, str(exc)[:200]))
+        return
+    acc.tags["ran"] += 1
+    acc.vcs += 1
+    want = placement_expected(r["wrappers"], r["duplicate"])
+    acc.counts[want] += 1
+    if r["got"] != want:
+        acc.candidate(kind="block-placement", input=dict(wrappers=r["wrappers"], duplicate=r["duplicate"]), detail="%s, documented: %s" % (r["got"], want))
+    if len(acc.samples) < 8:
+        acc.sample(dict(wrappers=r["wrappers"], duplicate=r["duplicate"], outcome=r["got"]))
+
+
+# ------------------------------------------------------------------ an included template is a chain of its own; body() arguments
+def extras_sources(f):
+    inc = "I[" + ('<%block name="b">IB</%block>' if f["included_declares_b"] else "-") + " parent=${'set' if context.get('parent') else 'unset'}]"
+    base = '<%page args="x=\'dx\'"/>' if False else ""
+    base = "BASE(" + ('<%block name="b">B1</%block>' if f["base_declares_b"] else "-") + " " + \
+        ("${next.body(x='bx')}" if f["body_argument"] else "${next.body()}") + (' <%include file="inc"/>' if f["include_in"] == "base" else "") + ")"
+    derived = '<%inherit file="base"/><%page args="x=\'dx\'"/>' + ('<%block name="b">B0</%block>' if f["derived_overrides_b"] else "") + \
+        "D(x=${x}" + (' <%include file="inc"/>' if f["include_in"] == "derived" else "") + ")"
+    return {"inc": inc, "base": base, "derived": derived}
+
+
+def extras_reference(f):
+    # the derived body is CALLED by the base (next.body(...)): its <%page> arguments are what the call gives, else their defaults;
+    # a context variable of the same name does not bind them (only the top-level render callable is fed from the context)
+    x = "bx" if f["body_argument"] else "dx"
+    inc = "I[" + ("IB" if f["included_declares_b"] else "-") + " parent=unset]"
+    b = "-"
+    if f["base_declares_b"]:
+        b = "B0" if f["derived_overrides_b"] else "B1"
+    # a block that only the derived template declares renders at its position in the derived body (it is the base-most declaring it)
+    dblock = "B0" if (f["derived_overrides_b"] and not f["base_declares_b"]) else ""
+    return "BASE(%s %sD(x=%s%s)%s)" % (b, dblock, x, (" " + inc) if f["include_in"] == "derived" else "", (" " + inc) if f["include_in"] == "base" else "")
+
+
+def extras_case(LKm, f):
+    lk = LKm.TemplateLookup()
+    for k, v in extras_sources(f).items():
+        lk.put_string(k, v)
+    data = {"x": "cx"} if f["x_in_context"] else {}
+    try:
+        return " ".join(lk.get_template("derived").render(**data).split())
+    except Exception as e:
+        return "raised %s: %s" % (type(e).__name__, e)
+
+
+def h_extras(p):
+    f = {k: bool(p.choose(2, k)) for k in ("included_declares_b", "base_declares_b", "derived_overrides_b", "body_argument", "x_in_context")}
+    f["include_in"] = ["derived", "base"][p.choose(2, "include_in")]
+    return dict(f=f, got=extras_case(LK, f))
+
+
+def on_extras(p, r, exc, acc):
+    if exc is not None:
+        acc.candidate(kind="harness-exception", input=None, detail="%s: %s" % (type(exc).__name__, str(exc)[:200]))
+        return
+    acc.tags["ran"] += 1
+    acc.vcs += 1
+    want = " ".join(extras_reference(r["f"]).split())
+    if r["got"] != want:
+        acc.candidate(kind="include-or-body-arguments-in-chain", input=dict(extras=r["f"]), detail="rendered %r, documented %r" % (r["got"], want))
+    acc.sample(dict(flags=r["f"], output=r["got"]))
+
+
 def make_replay(c):
     i = c["input"] or {}
+    if "wrappers" in i or "extras" in i:
+        body = """
+sys.path.insert(0, "/verif")
+CASE = __CASE__
+import mako.template as TP, mako.exceptions as EXC, mako.lookup as LK
+from props import C06
+if "wrappers" in CASE:
+    print(C06.placement_source(CASE["wrappers"], CASE["duplicate"]))
+    got, want = C06.placement_case(TP, EXC, CASE["wrappers"], CASE["duplicate"]), C06.placement_expected(CASE["wrappers"], CASE["duplicate"])
+    why = "a named block inside a def / call, or a second block of the same name, must be rejected at compile time (and only those)"
+else:
+    for k, v in C06.extras_sources(CASE["extras"]).items(): print("---", k); print(v)
+    got, want = C06.extras_case(LK, CASE["extras"]), " ".join(C06.extras_reference(CASE["extras"]).split())
+    why = "an included template is a chain of its own / body() arguments reach the <%page> signature"
+print("got     :", got); print("expected:", want)
+bad = None if got == want else why
+print("VIOLATED: " + bad if bad else "HOLDS")
+sys.exit(1 if bad else 0)
+""".replace("__CASE__", repr(i))
+        return (c["kind"], body, repr(sorted(i.items(), key=str)))
     body = """
 sys.path.insert(0, "/verif")
 CASE = __CASE__
@@ -190,12 +342,22 @@ def run(check, tier):
         "marked position, and chains with next.body(); the expected text is computed from the statement's rules",
         "`next` in the most-derived template and `parent` in the base-most are not set by Mako and are not probed",
         "outputs are concrete per flag combination; the explorer exhausts all combinations within the bound")
-    check.not_claimed("compile-time rejections (duplicate / misplaced blocks)", "page arguments passed through body()", "nested named blocks")
+    check.assume("placement: a named block under up to %d nested wrappers chosen from %r, optionally with a second declaration of its name "
+                 "(sibling block, def of that name, block inside another block): compiled by the real Template; rejected exactly when a def / "
+                 "<%%call> / <%%ns:def> stands above a named block or the name is declared twice, otherwise it renders its text once"
+                 % ({"quick": 2, "thorough": 3}[tier], list(WRAP)),
+                 "an <%include> inside a chain (in the derived or the base body) of a template that declares a block of the same name as the "
+                 "chain's, and next.body(x=..) against the derived <%page args>: expected text from the statement")
+    check.not_claimed("named blocks nested in named blocks across inheritance levels")
     jobs = []
     for n in range(1, {"quick": 3, "thorough": 4}[tier] + 1):
         full = n <= 2 or (tier == "thorough" and n <= 3)
         jobs.append(("C06-%d" % n, h_chain(n, full), on_chain, "chains of %d templates, %s flag set" % (n, "full" if full else "reduced"),
                      dict(levels=n, flags="def, block, attr(%d), inherit(%d)" % ((3, 3) if full else (2, 2))), ("ran",)))
+    D = {"quick": 2, "thorough": 3}[tier]
+    jobs.append(("C06-placement", h_placement(D), on_placement, "named block under up to %d wrappers, with and without a duplicate declaration" % D,
+                 dict(depth=D, wrappers=list(WRAP)), ("ran",)))
+    jobs.append(("C06-extras", h_extras, on_extras, "include inside an inheritance chain; body() arguments", dict(flags=6), ("ran",)))
     for j in jobs:
         driver.register(j[0], j[1], j[2])
     cands = []
